@@ -1010,11 +1010,12 @@ class Evaluator:
                         out.append(self.expr(e.elt, fr))
                 return T.dct(out) if kind == 'dict' else T.lst(out)
             # symbolic iterable: MAP(var, body, iter, filter)
-            tag_ = '%d:%d' % (e.lineno, e.col_offset)
+            depth_ = getattr(self, '_comp_depth', 0)
             if _is_items(it):
-                var = T.tup([T.sym('key@' + tag_, type='str'), T.sym('val@' + tag_)])
+                var = T.tup([T.sym('key%d' % depth_, type='str'), T.sym('val%d' % depth_)])
             else:
-                var = T.sym('each@' + tag_, **_elem_meta(it))
+                var = T.sym('each%d' % depth_, **_elem_meta(it))
+            self._comp_depth = depth_ + 1
             self.assign(g.target, var, fr)
             keep = T.TRUE
             for cnd in g.ifs:
@@ -1025,6 +1026,8 @@ class Evaluator:
                 body = self.expr(e.elt, fr)
             return T.raw_op('MAP', var, body, it, keep, T.const(kind))
         finally:
+            self._comp_depth = getattr(self, '_comp_depth', 1) - 1 if items is None or len(items) > UNROLL_BOUND else \
+                getattr(self, '_comp_depth', 0)
             # comprehension variables do not leak
             for k in list(fr.env):
                 if k not in saved:
